@@ -186,7 +186,9 @@ def run(chk: Check) -> None:
         "of the reference derivation (left-associative levels, juxtaposition, exponent binding to the last factor, "
         "negative literals, factorial of a literal, functions, parentheses); parsed trees use no operand object twice. "
         "Plus the ladder rule on the AST. Not decided: token sequences longer than the bound; numeric coercion of "
-        "literals (int vs float) beyond 'malformed literal raises ValueError'; the tokenizer (C11).")
+        "literals (int vs float) beyond 'malformed literal raises ValueError'. The tokenizer the parser reads through is "
+        "validated against the specification tokenizer on symbolic strings of up to 2 characters over 263 code points and "
+        "3-4 characters over the letters of the function name (the clause of C11).")
     chk.assumptions = [f"token sequence length <= {n}", "tokenizer contract (C11): token list ends with one EOF; Function "
                        "tokens carry a registered name", "reference grammar = docstring grammar with mandatory operators"]
     recs = analyse_parser(str(REPO), n)
@@ -199,5 +201,14 @@ def run(chk: Check) -> None:
     from .c10 import run_sticky
     scen = analyse_scenarios(str(REPO), 2 if chk.tier == "quick" else 3)
     run_sticky(chk, scen, pid="C03", rid="R5", names=("parse;parse", "parse;parse;parse", "tokenize;parse"))
+    # reading a string starts with cutting it into tokens: the tokenizer over symbolic strings against the specification
+    # tokenizer (the clause of C11, under this property's rule id; the parser analysis above starts from its tokens)
+    from .c11 import run_tokenize, universe
+    chk.rule("C03.R7", "the tokenizer the parser reads through agrees with the specification tokenizer on every path over "
+             "symbolic strings (token boundaries, types, function names)", minimum=300)
+    for n_chars in (0, 1, 2):
+        run_tokenize(chk, prog, n_chars, universe(), f"U{n_chars}", remap=lambda rid: "C03.R7")
+    for n_chars in (3, 4):
+        run_tokenize(chk, prog, n_chars, frozenset("sgnSGNx7.+ #"), f"S{n_chars}", remap=lambda rid: "C03.R7")
     chk.exhaustive = True
     chk.max_undecided = 0
